@@ -70,7 +70,7 @@ def gen_world(rng, i, tier):
         sets = []
         secs = [None, "A", "B b", "C"]
         for _ in range(rng.randint(1, 20)):
-            sets.append([rng.pick(secs), rng.pick(["k1", "k2", "Name", "n", "flag"]), rng.pick(grammar.WORDS + ["", "multi\n  line", "\"q\"", "x#y", " lead", "trail ", "  both\t", "tab\tin", "line1\nline2 \n  line3", "L" * 1100, "seg " * 500])])
+            sets.append([rng.pick(secs), rng.pick(["k1", "k2", "Name", "n", "flag"]), rng.pick(grammar.WORDS + ["", "multi\n  line", "\"q\"", "x#y", " lead", "trail ", "  both\t", "tab\tin", "line1\nline2 \n  line3", "L" * 1100, "seg " * 500, "Yes Please " * 800, "TRUE" + "x" * 8190, "No" * 4096, "0X" + "F" * 9000])])
         w["sets"] = sets
         w["ctor"] = rng.pick(["newKeyFile", "newIniFile", "newOpts"])
         for s, k, _ in sets:
